@@ -71,9 +71,9 @@ func probeSuite(c Cfg) []Req {
 			[]string{strings.Join(allowedL, ", ")},
 			[]string{allowedL[0]},
 			[]string{strings.Join(append(append([]string{}, allowedL...), "x-not-allowed"), ",")},
-			[]string{allowedL[0], "x-not-allowed"},                   // good first field line, bad later one
+			[]string{allowedL[0], "x-not-allowed"},                  // good first field line, bad later one
 			[]string{strings.Join(allowedL, ","), "zz-not-allowed"}, // the complete allowed list, then a bad line
-			[]string{"", allowedL[0]},                                // empty first field line
+			[]string{"", allowedL[0]},                               // empty first field line
 		)
 		if len(allowedL) > 1 {
 			hdrLists = append(hdrLists,
